@@ -23,7 +23,8 @@ EVIDENCE = {
             'matcher and the registration time line decide must / may / must-not per (packet, registration).  In a quarter '
             'of the runs the link is torn down while the last packet is being dispatched (close_link called by one of its '
             'callbacks, or a link error handled on another thread while a callback runs): the remaining callbacks still '
-            'get that packet.',
+            'get that packet.  In a fifth of the runs an application thread registers / unregisters an extra callback while '
+            'bursts of packets are being dispatched (the packets its change may overlap are judged "may").',
     'directed': 'two callbacks on one pattern where the first unregisters itself / the second / raises, at every list '
                 'position 0..3; tear-down by / during the callback at each of five positions',
     'real': ['_IncomingPacketHandler (real thread)', 'Crazyflie.add_port_callback/add_header_callback/remove_*',
